@@ -219,7 +219,16 @@ func (e *Exec) navigate(v Value, path []PElem, t types.Type) Value {
 				panic(unsupported("field of SoA without index"))
 			}
 			if x.Str {
-				v = &StringV{Arr: e.c.Select(x.F[0].(*Term), pe.Index), Off: e.c.Select(x.F[1].(*Term), pe.Index), Len: e.c.Select(x.F[2].(*Term), pe.Index)}
+				sv := &StringV{Arr: e.c.Select(x.F[0].(*Term), pe.Index), Off: e.c.Select(x.F[1].(*Term), pe.Index), Len: e.c.Select(x.F[2].(*Term), pe.Index)}
+				// type invariant of a string element: its length is a valid length
+				if e.strLenAx == nil {
+					e.strLenAx = map[string]bool{}
+				}
+				if !e.strLenAx[sv.Len.S] {
+					e.strLenAx[sv.Len.S] = true
+					e.axiom(nil, e.c.ULe(sv.Len, BVConst(maxCap, 64)))
+				}
+				v = sv
 				continue
 			}
 			s := &StructV{F: make([]Value, len(x.F))}
